@@ -163,6 +163,8 @@ def wire_strategy(draw, cls: type, depth: int = 3, all_aliases: bool = False, ex
         by = {f["name"]: f for f in fs}
         if shape in ("request", "result", "error"):
             obj["id"] = draw(_envelope_override(cls, by["id"]))
+        if shape == "error" and draw(st.integers(0, 2)) == 0:
+            obj["id"] = None  # the reply to a message whose id could not be read: "id": null is part of the wire object
         if shape in ("request", "notification"):
             obj["method"] = draw(st.sampled_from(["ping", "tools/list", "notifications/progress", "x"]))
             if draw(st.booleans()):
